@@ -598,6 +598,8 @@ func (g *gen) gasLadderFor(fn string, sure bool) bool {
 	}
 	sp.ct = []int{0, 0, 1, 2, 3}[g.r.Intn(5)]
 	sp.gasLocked = uint64(g.r.Intn(3)) * 17
+	// the price does not depend on the return-after-error flag (a flagged call that is short of gas is short of gas)
+	sp.rae = g.r.Intn(5) == 0
 	res := g.probe(sp, -1)
 	if !isOK(res) {
 		g.do(sp)
@@ -986,7 +988,40 @@ func (g *gen) runMetadata() {
 		g.drain()
 		return true
 	}
-	g.loop([]wop{{22, opCreateVaried}, {30, opRoute}, {14, opRouteMulti}, {6, opForge}, {10, g.opAddURI}, {10, g.opUpdateAttr}, {8, g.lateNetwork}})
+	// second leg after a metadata change: part of a holding goes to B, the holder (with the role) changes the attributes /
+	// adds a URI on what it kept, then sends more of the same (token, nonce) to B: B's copy is stale, the hash is the same
+	// (possibly empty on both sides) - the second leg is accepted and B ends up with the metadata that travelled
+	opSecondLegAfterUpdate := func() bool {
+		x, ok := g.pickHeld(func(a []byte, h holding) bool {
+			return isNFT(a, h) && h.val.Cmp(big.NewInt(3)) >= 0 && !g.sink[string(a)] &&
+				(has(g.rolesOf(a, h.tok), oracle.RoleNFTUpdateAtt) || has(g.rolesOf(a, h.tok), oracle.RoleNFTAddURI))
+		})
+		if !ok {
+			return false
+		}
+		b := g.otherThan(x.a, nil)
+		if b == nil || g.sink[string(b)] {
+			return false
+		}
+		tok, nb := x.h.tok, x.h.nb()
+		leg := func() {
+			if g.r.Intn(3) == 0 {
+				g.do(g.user(oracle.FnNFTTransfer, x.a, x.a, bigGas, tok, nb, []byte{1}, b))
+			} else {
+				g.do(g.user(oracle.FnMultiTransfer, x.a, x.a, bigGas, b, be(1), tok, nb, []byte{1}))
+			}
+			g.drain()
+		}
+		leg()
+		if has(g.rolesOf(x.a, tok), oracle.RoleNFTUpdateAtt) && g.r.Intn(3) > 0 {
+			g.do(g.user(oracle.FnNFTUpdate, x.a, x.a, bigGas, tok, nb, []byte("attr-v"+strconv.Itoa(g.r.Intn(100)))))
+		} else {
+			g.do(g.user(oracle.FnNFTAddURI, x.a, x.a, bigGas, tok, nb, []byte("uri-late")))
+		}
+		leg()
+		return true
+	}
+	g.loop([]wop{{22, opCreateVaried}, {30, opRoute}, {14, opRouteMulti}, {6, opForge}, {10, g.opAddURI}, {10, g.opUpdateAttr}, {8, g.lateNetwork}, {8, opSecondLegAfterUpdate}})
 }
 
 // ---------------------------------------------------------------------------
@@ -1200,8 +1235,16 @@ func (g *gen) runDeterminism() {
 			}
 			r := held[g.r.Intn(len(held))]
 			g.do(g.sys(oracle.FnUnSetRole, a, tok, []byte(r)))
-			if g.r.Intn(2) == 0 {
+			switch g.r.Intn(4) {
+			case 0, 1:
 				g.do(g.sys(oracle.FnSetRole, a, tok, []byte(r)))
+			case 2:
+				// a set that lists a role the account still holds BEFORE the one it lacks (outside the system contract's
+				// discipline, which is irrelevant here: whatever the arguments are, the call must not rewrite them)
+				if len(held) > 1 {
+					h2 := held[(g.r.Intn(len(held)-1)+1+indexOf(held, r))%len(held)]
+					g.do(g.sys(oracle.FnSetRole, a, tok, []byte(h2), []byte(r)))
+				}
 			}
 			return true
 		}
@@ -1222,4 +1265,13 @@ func (g *gen) runDeterminism() {
 		// output.go: merging never writes its inputs, not even the spare capacity behind their transfer slices
 		{2, func() bool { g.emit(g.mergeseqLine()); return true }},
 	})
+}
+
+func indexOf(l []string, x string) int {
+	for i, y := range l {
+		if y == x {
+			return i
+		}
+	}
+	return 0
 }
